@@ -3,7 +3,7 @@
 (* Bounded universe of authorization models for exhaustive checking of     *)
 (* WGraph (all models of the universe x all DFS root orders).              *)
 (* Frame:   user | grp {a: [user]; free relations when NFreeGrp}           *)
-(*          doc  {a: [user], p: [doc], q: [doc, grp], free relations}      *)
+(*          doc  {a: [user], p: [doc], q: [doc, doc with c, grp], free relations}      *)
 (* Free relations x, y (, z) of type doc take every shape of a menu.       *)
 (***************************************************************************)
 EXTENDS WGraph
@@ -44,6 +44,9 @@ Shape(i, s, o1, o2) ==
     [] i = 18 -> [rw |-> In(<<CU(o1), CU(o2)>>), restr |-> <<>>]
     [] i = 19 -> [rw |-> Di(CU(o1), This), restr |-> <<Ty("user"), Ty("grp")>>]
     [] i = 20 -> [rw |-> Un(<<TTU(s, "p"), CU(o1)>>), restr |-> <<>>]
+    [] i = 21 -> [rw |-> This, restr |-> <<Wi("user"), Us("doc", s), Wi("grp")>>]          \* public types around a self userset
+    [] i = 22 -> [rw |-> This, restr |-> <<Wi("user"), Us("doc", o1), Wi("grp"), Ty("user")>>]  \* ... around a userset cycle
+    [] i = 23 -> [rw |-> Un(<<TTU("a", "q"), This>>), restr |-> <<TyC("user", "c"), Ty("user"), Wi("user")>>]
 
 FreeNames == IF NFree = 2 THEN <<"x", "y">> ELSE <<"x", "y", "z">>
 Other(i, d) == FreeNames[((i - 1 + d) % NFree) + 1]
@@ -52,7 +55,7 @@ ModelOf(choice) ==     \* choice: function 1..NFree -> Menu
   [types |-> <<
      [name |-> "doc", rels |-> <<Rel("a", Shape(1, "a", "a", "a")),
                                  [name |-> "p", rw |-> This, restr |-> <<Ty("doc")>>],
-                                 [name |-> "q", rw |-> This, restr |-> <<Ty("doc"), Ty("grp")>>]>>
+                                 [name |-> "q", rw |-> This, restr |-> <<Ty("doc"), TyC("doc", "c"), Ty("grp")>>]>>
                               \o [i \in 1..NFree |-> Rel(FreeNames[i], Shape(choice[i], FreeNames[i], Other(i, 1), Other(i, 2)))]],
      [name |-> "grp", rels |-> <<Rel("a", Shape(1, "a", "a", "a"))>>],
      [name |-> "user", rels |-> <<>>]>>]
